@@ -599,6 +599,8 @@ def gen_case(rng):
     t = rc.table()
     plain = [x for x in cl["current"] if not ("." in x and x[:x.rfind(".")] in t)]
     pool = rng.sample(plain, 3) + rng.sample(cl["licref"], 1) + ["MIT", "0BSD"]
+    if rng.random() < 0.2:
+        pool.append(rng.choice(cl["licreflike"]))       # an ill-formed LicenseRef- look-alike, used like any other identifier
     flags = rng.choice(["00", "00", "01", "10"])
     glob = rng.choice(["none", "toml", "toml", "toml", "dep5"])
     tree = []
@@ -707,7 +709,9 @@ def gen_case(rng):
         names = []
         for x in used:
             if not (x in t or rc.is_licref(x)):
-                continue
+                # not a valid identifier: its text is provided all the same three times out of four (it stays a bad licence)
+                if not (x in cl["licreflike"] and rng.random() < 0.75):
+                    continue
             name = x + rng.choice([".txt", ".txt", ".md"])
             r = rng.random()
             if r < 0.15:
@@ -728,7 +732,7 @@ def gen_case(rng):
             elif k < 0.45:
                 names.append(rng.choice(plain + cl["exception"]) + ".txt")
             elif k < 0.55:
-                names.append(rng.choice(cl["unknown"] + cl["wrongcase"]) + ".txt")
+                names.append(rng.choice(cl["unknown"] + cl["wrongcase"] + cl["licreflike"] + rc.LICREF_LIKE_NAMES) + ".txt")
             elif k < 0.65:
                 names.append(rng.choice(plain))
             elif k < 0.75:
